@@ -83,11 +83,8 @@ Lemma calm_repeat n : Forall calm (repeat ok_res n).
 Proof. induction n; cbn; constructor; [discriminate|assumption]. Qed.
 Lemma calm_stuck {A} e (l : list A) : Forall calm (map (fun _ => stuck_res e) l).
 Proof. induction l; cbn; constructor; [discriminate|assumption]. Qed.
-Lemma calm_done l : forall last i, Forall calm (done_results last i l).
-Proof.
-  induction l as [|c l IH]; intros last i; cbn [done_results]; [constructor|].
-  destruct c; constructor; try discriminate; apply IH.
-Qed.
+Lemma calm_done l i : Forall calm (done_results i l).
+Proof. apply calm_stuck. Qed.
 Lemma calm_finish s t j rest : Forall calm (finish s t j rest).
 Proof.
   destruct s; cbn [finish]; try constructor.
